@@ -19,6 +19,11 @@ def load(ref):
     except Exception:
         return {"findings": [], "fixed": []}
 ours, theirs = load("HEAD"), load(b)
+base_ref = subprocess.check_output(["git", "merge-base", "HEAD", b]).decode().strip()
+base = load(base_ref)
+# findings the branch deliberately removed (e.g. moved to `fixed`) are removed here too
+removed = {(f["property"], f["signature"]) for f in base.get("findings", [])} - {(f["property"], f["signature"]) for f in theirs.get("findings", [])}
+ours["findings"] = [f for f in ours.get("findings", []) if (f["property"], f["signature"]) not in removed]
 out = dict(ours)
 seen = {(f["property"], f["signature"]) for f in ours.get("findings", [])}
 for f in theirs.get("findings", []):
